@@ -63,7 +63,9 @@ def strategy():
                 "fac": fac, "lvl": lvl, "ident": ident, "identval": identval, "exact_limit": exact_limit, "real": real,
                 # the caller has switched its stdout to full buffering (setvbuf / stdbuf -o): buffering is the caller's business, the record
                 # still has to be out before the image is replaced -- also when stdout is a terminal
-                "fullbuf": draw(st.sampled_from([False, False, True]))}
+                "fullbuf": draw(st.sampled_from([False, False, True])),
+                # the calling process has a 7-digit pid (pid namespaces of large hosts; pid_max up to 4194304)
+                "bigpid": draw(st.sampled_from([0, 0, 0, 0, 0, 1234567, 4194303]))}
     return case()
 
 
@@ -145,7 +147,8 @@ def evaluate(env, c):
     if any(len(l) > 1022 for l in p["ini"].split(b"\n")):
         return
     path = p["path"]
-    ops = [drv.op("x", out + "/log", out + "/log-x-1", out + "/fd1.file", out + "/fd2.file"), drv.op("f"), drv.op("T")]
+    ops = [drv.op("x", out + "/log", out + "/log-x-1", out + "/fd1.file", out + "/fd2.file")] + \
+          ([drv.op("g", c["bigpid"])] if c.get("bigpid") else []) + [drv.op("f"), drv.op("T")]
     for fd in (1, 2):
         if c["stdio"] == "file":
             ops.append(drv.op("S", fd, "file", out + "/fd%d.file" % fd))
@@ -271,7 +274,7 @@ def classify(c):
         c["n"] > 1024 or binary or c["out"] == "filetpl" or nondef_syslog)
     key = (c["out"], sizecls, c["chain"], c["stdio"], c["real"], binary, c.get("repeat", 1)) if nontriv else None
     cls = ["out:" + c["out"], "size:" + sizecls, "chain:" + c["chain"], "stdio:" + c["stdio"],
-           "real" if c["real"] else "scripted", "repeat:%d" % c.get("repeat", 1)] + (["stdout-fully-buffered-by-caller"] if c.get("fullbuf") else [])
+           "real" if c["real"] else "scripted", "repeat:%d" % c.get("repeat", 1)] + (["stdout-fully-buffered-by-caller"] if c.get("fullbuf") else []) + (["pid:7-digits"] if c.get("bigpid") else [])
     if c["errlog"]:
         cls.append("error_logging")
     if binary:
@@ -294,6 +297,7 @@ def _c(**kw):
 
 
 FIXED = [
+    _c(out="devlog", bigpid=1234567, n=300, body=b"p" * 300), _c(out="devlog", bigpid=4194303, fac="LOCAL7", lvl="DEBUG"),
     _c(out="stdout", real=True), _c(out="stdout", stdio="file"), _c(out="stdout", stdio="pty", real=True, fullbuf=True), _c(out="stdout", stdio="pty", fullbuf=True),                                 # record must leave the stdio buffer before the exec
     _c(out="file", shape="empty", n=0, body=b""), _c(out="stdout", shape="empty", n=0, body=b""),  # empty message: no record at all
     _c(out="file", repeat=3), _c(out="filetpl", repeat=2),                                       # same call repeated in one process
